@@ -16,15 +16,16 @@ GRID = {"cart": dict(shape=(3, 2, 2), steps=(2.0, 1.0, 3.0))}
 CYL = [(4, 45, 2, 3), (4, 45, 1, 6), (1, 360, 2, 3), (2, 90, 1, 6), (3, 120, 1, 6), (2, 60, 2, 3)]      # the last two: an odd number of periods per turn (1 and 3)        # (NPHI, DPHI, NZc, DZc): incl. a single Z layer and the axisymmetric case
 
 
-def material(kind, vmap, cyl=None):
+def material(kind, vmap, cyl=None, u=1.0):
+    """the grid in units of u metres (angles stay angles)"""
     import numpy as np
     from cherab.tools.raytransfer import CartesianRayTransferEmitter, CylindricalRayTransferEmitter
     vm = np.array(vmap, dtype=np.int32)
     if kind == "cart":
         g = GRID[kind]
-        return CartesianRayTransferEmitter(g["shape"], g["steps"], voxel_map=vm)
+        return CartesianRayTransferEmitter(g["shape"], tuple(s * u for s in g["steps"]), voxel_map=vm)
     nphi, dphi, nz, dz = cyl
-    return CylindricalRayTransferEmitter((2, nphi, nz), (2.0, float(dphi), float(dz)), voxel_map=vm, rmin=1.0)
+    return CylindricalRayTransferEmitter((2, nphi, nz), (2.0 * u, float(dphi), float(dz) * u), voxel_map=vm, rmin=1.0 * u)
 
 
 def replay(rec, ctx):
@@ -56,6 +57,17 @@ def replay(rec, ctx):
     ident = AffineMatrix3D()
     integ.integrate(sp, None, None, None, mat, Point3D(*p0), Point3D(*p1), ident, ident)
     got = [float(x) for x in sp.samples]
+    # RayTransfer.tla works in lattice units: the same grid and ray in millimetres give the same entries in millimetres
+    # (every fifth behaviour; cylindrical angles are unchanged)
+    if (rec["p0"][0] * 7 + rec["p1"][1] * 3 + n) % 5 == 0:
+        u = 1e-3
+        mat_u = material(kind, rec["voxel_map"], cyl, u)
+        integ_u = (CartesianRayTransferIntegrator if kind == "cart" else CylindricalRayTransferIntegrator)(step=length * 2.0 * u, min_samples=n)
+        sp_u = Spectrum(600.0, 601.0, mat_u.bins)
+        integ_u.integrate(sp_u, None, None, None, mat_u, Point3D(*[x * u for x in p0]), Point3D(*[x * u for x in p1]), ident, ident)
+        got_u = [float(x) / u for x in sp_u.samples]
+        if len(got_u) != len(got) or any(abs(a - b) > rec["amb"] * length / n + 1e-9 * length for a, b in zip(got_u, got)):
+            bad("entries-depend-on-the-length-unit", f"in mm: {got_u}, in m: {got}")
     dt = length / n
     want = [c * dt for c in rec["per_source"]]
     slack = rec["amb"] * dt + 1e-12 * length
